@@ -33,7 +33,14 @@ def main():
 
             from .core import LEAN_DIR
 
-            mods = [f"PtaProofs.Props.{prop}"] + (["PtaProofs.Props.E2E"] if prop in ("C01", "C02", "C03", "C04") else [])
+            pdir = os.path.join(LEAN_DIR, "PtaProofs", "Props")
+            mods = sorted("PtaProofs.Props." + f[:-5] for f in os.listdir(pdir) if f.endswith(".lean") and f.startswith(prop))
+            if prop in ("C01", "C02", "C03", "C04"):
+                mods += ["PtaProofs.Props.E2E", "PtaProofs.Props.E2EWide"]
+            if prop == "C04":
+                mods.append("PtaProofs.Props.TablesWiring")
+            if prop in ("C12", "C13"):
+                mods.append("PtaProofs.Props.Tables")
             mods = [m for m in mods if os.path.exists(os.path.join(LEAN_DIR, *m.split(".")) + ".lean")]
             t0 = time.time()
             p = subprocess.run(["lake", "env", "leanchecker"] + mods, cwd=LEAN_DIR, capture_output=True, text=True, timeout=1800)
